@@ -1,7 +1,10 @@
 #!/usr/bin/env python3
-"""usage: keepseed.py <id> <property> <worktree> '<needs>' '<ran>' '<caught_by>'  -- stores a verified seeded change under seeded/<id>/"""
+"""usage: keepseed.py <id> <property> <worktree> '<needs>' '<ran>' '<caught_by>' [<check>]  -- stores a verified seeded change under
+seeded/<id>/.  <check> (default: the property) is the check ./selftest runs against it, for changes whose violation of the given property only
+manifests under a workload that belongs to another property's check (e.g. concurrency -> C09)."""
 import json, os, shutil, sys
 sid, prop, wt, needs, ran, caught = sys.argv[1:7]
+check = sys.argv[7] if len(sys.argv) > 7 else prop
 here = os.path.dirname(os.path.dirname(os.path.abspath(__file__)))
 d = os.path.join(here, 'seeded', sid)
 os.makedirs(d, exist_ok=True)
@@ -9,7 +12,7 @@ for fn in ('patch.diff', 'demo.py', 'notes.md'):
     src = os.path.join(wt, 'seeded_out', fn)
     if os.path.exists(src):
         shutil.copy(src, os.path.join(d, fn))
-json.dump({'property': prop, 'needs_to_manifest': needs, 'what_was_run': ran, 'caught_by': caught,
+json.dump({'property': prop, 'check': check, 'needs_to_manifest': needs, 'what_was_run': ran, 'caught_by': caught,
            'origin': 'independent sub-agent given only the property text and a scratch worktree of /repo'},
           open(os.path.join(d, 'meta.json'), 'w'), indent=1)
 print('kept', d, os.listdir(d))
